@@ -18,3 +18,25 @@ def run_selftest(prop, A):
     out["seeded_not_applicable"] = rs["not_applicable"]
     out["missed"] = list(out.get("missed", [])) + rs["missed"]
     return out
+
+
+def run_canary(prop, A):
+    """quick tier: one seeded variant of the current source (the first one of the property that applies) must be
+    reported by its rule - a positive example on every run, so that a rule that has gone blind cannot pass quietly"""
+    from .variants import VARIANTS, _run_one
+    from .loader import read_sources
+    base = read_sources(A.p.root)
+    for i, (p, expect, name, edit) in enumerate(VARIANTS):
+        if p != prop or expect is None:
+            continue
+        try:
+            src = edit(base)
+        except SyntaxError:
+            src = None
+        if src is None:
+            continue
+        idx, found, problems, floors, err = _run_one((p, expect, name, i, src))
+        ok = expect in found or bool(err) or bool(problems) or bool(floors)
+        return {"canary": name, "expected": expect, "reported": found, "ok": ok,
+                "missed": [] if ok else [f"canary variant `{name}` should be reported by {expect}; reported: {found or 'nothing'}"]}
+    return {"canary": None, "ok": True, "missed": [], "note": "no variant of this property applies to the current source"}
